@@ -194,6 +194,11 @@ func c20Threads() []c20Thread {
 			if _, err := client.GetNodes(nc, inst.RootID, "all", "", false); err != nil && !tol {
 				rec.fail("request-failed/read", "R children read: "+err.Error())
 			}
+			// a read of a node that does not exist must be answered too (with an error or an empty list)
+			if _, err := client.GetNodes(nc, inst.RootID, "no-such-node", "", false); err != nil && !tol &&
+				(strings.Contains(err.Error(), "timeout") || strings.Contains(err.Error(), "no responders")) {
+				rec.fail("request-failed/read", "R read of a missing node was not answered: "+err.Error())
+			}
 		}},
 		{"V admin.storeVerify", func(inst *sh.Inst, nc *nats.Conn, rec *c20Rec, tol bool) {
 			m, err := nc.Request("admin.storeVerify", nil, 20*time.Second)
